@@ -172,6 +172,9 @@ thread_local! {
 pub fn install_quiet_panic_hook() {
     std::panic::set_hook(Box::new(|info| {
         let was_armed = crate::alloc::disarm();
+        if crate::conc::CONC_MODE.load(std::sync::atomic::Ordering::Relaxed) {
+            crate::conc::WORKER_PANICKED.store(true, std::sync::atomic::Ordering::Relaxed);
+        }
         let msg = if let Some(s) = info.payload().downcast_ref::<&str>() {
             s.to_string()
         } else if let Some(s) = info.payload().downcast_ref::<String>() {
